@@ -428,3 +428,36 @@ Lemma empty_answers now n e c ents :
   snd (step now init (OStale n [])) = RExn KeyError /\
   snd (step now init (OEntityId n e c)) = REmptyStr.
 Proof. repeat split; reflexivity. Qed.
+
+(* ---------- (1) after ANY history: get_identity against the specification ---------- *)
+Theorem get_identity_history h now k check res old :
+  get_identity now (final init h) k [] check = Ok (res, old) ->
+  (forall e, In e old <-> exists ent, spec_of h k e = Some ent /\ contributes now check ent = false) /\
+  (forall a v, has_val a v res <->
+     exists e ts i av vals, spec_of h k e = Some (ts, i) /\ contributes now check (ts, i) = true /\
+                            i_ava i = Some av /\ In (a, vals) av /\ In v vals).
+Proof.
+  intros H. apply get_identity_all_char in H as [Ho Hr]. split.
+  - intros e. rewrite Ho. split; intros [ent [He Hc]]; exists ent; split; try exact Hc.
+    + now rewrite <- history_refines_spec.
+    + now rewrite history_refines_spec.
+  - intros a v. rewrite Hr. split; intros (e & ts & i & av & vals & He & Hx); exists e, ts, i, av, vals; split; try exact Hx.
+    + now rewrite <- history_refines_spec.
+    + now rewrite history_refines_spec.
+Qed.
+
+Corollary stale_source_reported h now k e ts i res old :
+  spec_of h k e = Some (ts, i) -> t_after now ts = true \/ info_empty i = true ->
+  get_identity now (final init h) k [] true = Ok (res, old) ->
+  In e old /\
+  (forall a v, has_val a v res -> exists e' ts' i' av vals, e' <> e /\ spec_of h k e' = Some (ts', i') /\
+       contributes now true (ts', i') = true /\ i_ava i' = Some av /\ In (a, vals) av /\ In v vals).
+Proof.
+  intros He Hbad H. apply get_identity_history in H as [Ho Hr].
+  assert (contributes now true (ts, i) = false) as Hc.
+  { destruct Hbad as [Hb|Hb]; [now apply contributes_expired|now apply contributes_empty]. }
+  split.
+  - apply Ho. now exists (ts, i).
+  - intros a v Hv. apply Hr in Hv as (e' & ts' & i' & av & vals & He' & Hc' & Hx).
+    exists e', ts', i', av, vals. split; [|tauto]. intros ->. rewrite He in He'. inversion He'; subst. congruence.
+Qed.
